@@ -298,6 +298,9 @@ func TestC19HangingHook(t *testing.T) {
 	marker := fmt.Sprintf("86%d", os.Getpid()%100000+100000)
 	started := filepath.Join(root, "started")
 	os.WriteFile(filepath.Join(hooks, "hang"), []byte(fmt.Sprintf("#!/bin/sh\necho $$ >> %s\nexec sleep %s\n", started, marker)), 0o755)
+	// a second hook that hangs AND ignores polite termination requests (ignored signals stay ignored across exec): the limit is a kill
+	started2, marker2 := filepath.Join(root, "started2"), marker+"7"
+	os.WriteFile(filepath.Join(hooks, "stubborn"), []byte(fmt.Sprintf("#!/bin/sh\ntrap '' TERM INT HUP\necho $$ >> %s\nexec sleep %s\n", started2, marker2)), 0o755)
 	a, err := startAgent(root, cfgFile, agentOpts{hooksDir: hooks, listeners: []string{"sasl", "http"}})
 	if err != nil {
 		t.Fatalf("VERIF-INFRA %v", err)
@@ -377,6 +380,25 @@ func TestC19HangingHook(t *testing.T) {
 	}
 	if gone == 0 {
 		t.Fatalf("VIOLATION C19: the hanging hook is still running 80 s after it was started (time limit: one minute)")
+	}
+	// the stubborn one: its first instance was started in the same round, so it is over the limit as well
+	if data, err := os.ReadFile(started2); err == nil {
+		if f := strings.Fields(string(data)); len(f) > 0 {
+			deadline := time.Now().Add(10 * time.Second)
+			for {
+				cl, err := os.ReadFile("/proc/" + f[0] + "/cmdline")
+				if err != nil || !strings.Contains(string(cl), marker2) {
+					vlib.Class("hanging-hook-that-ignores-SIGTERM-killed-after-limit")
+					break
+				}
+				if time.Now().After(deadline) {
+					t.Fatalf("VIOLATION C19: a hanging hook that ignores SIGTERM is still running %v after it was started (time limit: one minute)", time.Since(t0))
+				}
+				time.Sleep(200 * time.Millisecond)
+			}
+		}
+	} else {
+		t.Fatalf("VIOLATION C19: the second eligible hook was never started")
 	}
 	if gone < 55*time.Second {
 		t.Fatalf("VIOLATION C19: the hook was killed after only %v", gone)
